@@ -132,6 +132,11 @@ pub fn run_rustc_mode(p: &Paths, tag: &str, krate: &Crate, entropy: u64, hygiene
     for (k, v) in &w.env {
         cmd.env(k, v);
     }
+    // the sessions' disk: a directory of this E3 run (emptied at its start), not the machine's /tmp
+    let disk = p.work.join("disk");
+    let _ = std::fs::create_dir_all(disk.join("tmp"));
+    // (HOME stays: the rustup proxy needs it to find the toolchain)
+    cmd.env("TMPDIR", disk.join("tmp"));
     let out = cmd
         .arg("--edition").arg("2021")
         .arg(if hygiene { "-Zunpretty=expanded,hygiene" } else { "-Zunpretty=expanded" })
@@ -298,6 +303,7 @@ pub fn run(a: &Args, tier: &str, seed: u64) -> Result<E3Result, String> {
     }
     let thorough = tier == "thorough";
     let t0 = real_now_s();
+    let _ = std::fs::remove_dir_all(p.work.join("disk"));
     let repo = PathBuf::from(a.get("repo", "/repo"));
     let replay_dir = PathBuf::from(a.get("replay-dir", "/verif/replays"));
     let corp = corpus::harvest(&repo);
